@@ -2,6 +2,7 @@
     Property theorems only; every proof is [exact <lemma>]. *)
 From Coq Require Import List Arith Bool Sorted Permutation String ZArith.
 From Naunet Require Import Lib.ListX Model.Dup Proofs.DupProofs Proofs.DupHash.
+From NaunetGen Require Import Tables.
 Import ListNotations.
 
 Definition equivalence {K} (e : K -> K -> bool) : Prop :=
@@ -82,3 +83,9 @@ Theorem equal_reactions_hash_alike : forall (h : nat -> nat) a b,
   (brief_eqb a b = true -> rxn_hash h a = rxn_hash h b).
 Proof. exact eq_same_hash_lemma. Qed.
 Print Assumptions equal_reactions_hash_alike.
+
+(* tie to the current /repo (probe regenerated on every run): two equal reactions
+   written with different electron spellings hash alike *)
+Theorem live_hash_spelling_independent : reaction_hash_spelling_independent = true.
+Proof. reflexivity. Qed.
+Print Assumptions live_hash_spelling_independent.
